@@ -146,10 +146,12 @@ func (w *world) lookup(pkh, powh []byte) (vset, bool) {
 // plan is the validator set the application intends for height h
 // (what an honest proposer puts into headers when nothing else is committed).
 func (w *world) plan(h uint64) vset {
-	if h <= w.init || w.cfg.ValChange == 0 {
+	// The application's answer when finalizing h takes effect at h+2, so the
+	// genesis set covers the initial height and the one after it.
+	if h <= w.init+1 || w.cfg.ValChange == 0 {
 		return w.genesis
 	}
-	d := int((h - w.init) % 5)
+	d := int((h - w.init - 1) % 5)
 	n := w.cfg.N
 	keys := make([]int, n)
 	pows := make([]uint64, n)
